@@ -271,6 +271,13 @@ func HandlerSeq(a Args) {
 					req.Opaques = append(req.Opaques, uint32(100+j))
 					req.Quiet = append(req.Quiet, false)
 				}
+				// every other one like the text parser's requests: opaque 0 for every key
+				textlike := rng.Intn(2) == 0
+				if textlike {
+					for j := range req.Opaques {
+						req.Opaques[j] = 0
+					}
+				}
 				rc, ec := h.Get(req)
 				var got []common.GetResponse
 				var gerr error
@@ -297,13 +304,30 @@ func HandlerSeq(a Args) {
 					for j := range items {
 						items[j] = []interface{}{"malformed"}
 					}
+					used := make([]bool, len(items))
+					surplus := 0
 					for _, r := range got {
 						j := int(r.Opaque) - 100
-						if j >= 0 && j < len(items) {
+						if textlike {
+							j = -1
+							for x := range items {
+								if !used[x] && bytes.Equal(r.Key, req.Keys[x]) {
+									j = x
+									break
+								}
+							}
+						}
+						if j >= 0 && j < len(items) && !used[j] {
+							used[j] = true
 							items[j] = item(r.Miss, r.Data, r.Flags)
+						} else {
+							surplus++
 						}
 					}
 					res = []interface{}{"multi", items}
+					if surplus > 0 {
+						res = []interface{}{"malformed", fmt.Sprintf("%d responses more than keys asked for", surplus)}
+					}
 				}
 			case 14, 15:
 				c = MCmd{Op: "gete", K: k}
